@@ -12,12 +12,13 @@ func init() { register("C03", runC03) }
 
 func runC03(c *Ctx, tier string) {
 	r := NewReport("C03", "proof", tier, c)
-	r.Explanation = "The guarantee is framework-level and is decided once for all lints. (1) window-table: the decision table of lint.checkEffective (util.OnOrAfter inlined) is extracted from SSA with the time.Time comparisons kept as uninterpreted atoms and evaluated on every ordering of (effective, ineffective, target) over {before-zero, zero, 1, 2, 3}^3 against the specification (zero(e) ∨ t ≥ e) ∧ (zero(i) ∨ t < i); because instants are touched only through IsZero/Before/After/Equal the table covers every instant and every location, including the boundary instants of the statement. (2) window-binding: each CheckEffective passes the lint's EffectiveDate, IneffectiveDate and exactly NotBefore / ThisUpdate / NextUpdate of the linted object. (3) lifecycle: the decision tables of (*CertificateLint).execute, (*RevocationListLint).Execute and (*OcspResponseLint).Execute (window logic inlined) are evaluated on source × scope-gate × configuration outcome × applicability × all instant orderings: outside the window the outcome is a literal NE (or NA/fatal decided earlier) and the rule body's Execute is not called. (4) no-bypass: the only call sites of a lint implementation's Execute through the three lint interfaces are these three functions; the deprecated Lint wrapper copies all six metadata fields and delegates. (5) every registered EffectiveDate/IneffectiveDate folds to a constant UTC instant (so the window is a compile-time constant per lint)."
+	r.Explanation = "The guarantee is framework-level and is decided once for all lints. (1) window-table: the decision table of lint.checkEffective (util.OnOrAfter inlined) is extracted from SSA with the time.Time comparisons kept as uninterpreted atoms and evaluated on every ordering of (effective, ineffective, target) over {before-zero, zero, 1, 2, 3}^3 against the specification (zero(e) ∨ t ≥ e) ∧ (zero(i) ∨ t < i); because instants are touched only through IsZero/Before/After/Equal the table covers every instant and every location, including the boundary instants of the statement. (2) window-binding: each CheckEffective passes the lint's EffectiveDate, IneffectiveDate and exactly NotBefore / ThisUpdate / NextUpdate of the linted object. (3) lifecycle: the decision tables of (*CertificateLint).execute, (*RevocationListLint).Execute and (*OcspResponseLint).Execute (window logic inlined) are evaluated on source × scope-gate × configuration outcome × applicability × all instant orderings: outside the window the outcome is a literal NE (or NA/fatal decided earlier) and the rule body's Execute is not called. (4) no-bypass: the only call sites of a lint implementation's Execute through the three lint interfaces are these three functions; the deprecated Lint wrapper copies all six metadata fields and delegates. (5) every registered EffectiveDate/IneffectiveDate folds to a constant UTC instant (so the window is a compile-time constant per lint). (6) result-loop: the decision tables of the three execute* loops show that the value stored under a lint's name is the value that lint's own life-cycle function returned — so an NE produced by (3) is what the caller sees for that lint."
 	r.Rule("window-table: checkEffective ≡ (zero(e) ∨ t ≥ e) ∧ (zero(i) ∨ t < i) on all orderings")
 	r.Rule("window-binding: CheckEffective(l, obj) = checkEffective(l.EffectiveDate, l.IneffectiveDate, obj.<NotBefore|ThisUpdate|NextUpdate>)")
 	r.Rule("lifecycle: outside the window ⇒ literal NE/NA/Fatal and no call of the rule body")
 	r.Rule("no-bypass: interface Execute of lint implementations is invoked only from the three life-cycle functions")
 	r.Rule("date-folds: registered dates are constant UTC instants")
+	r.Rule("result-loop: the three execute* loops store, under each lint's name, exactly the value that lint's Execute returned (decision table, nothing but the index carried between iterations, no goroutines)")
 	r.Trusted = []string{"go/ssa", "time.Time.IsZero/Before/After/Equal compare instants irrespective of location (documented semantics)", "Go evaluates && and || left to right"}
 	r.Assumptions = []string{"lint implementations do not call each other's Execute through the framework (checked: no other invoke site)"}
 	r.Exhaustive = true
@@ -27,6 +28,10 @@ func runC03(c *Ctx, tier string) {
 	lcReport(c, r, "lifecycle", nil)
 	c03NoBypass(c, r)
 	c03Dates(c, r)
+	// what a result set shows under a lint's name is that lint's own life-cycle
+	// result (an NE that is overwritten by, or swapped with, another lint's result
+	// on the way into Results is a finding outside the window all the same)
+	c01Loops(c, r)
 	r.Finish()
 }
 
